@@ -121,6 +121,19 @@ def outsideDiff (m : Mid) : Bool :=
     | some d => b.flag != d.flag) ||
   m.bDel.any (fun d => !(m.bAdd.map (·.id)).contains d.id)
 
+/-- a FULL sync (IngressClass / Gateway-API notification, changed global ConfigMap): `config.Clear()` builds a
+brand-new config and the converters create every item again.  `Backends.Clear` hands the committed items over as
+`ItemsDel()` (so unchanged backends shrink); `Hosts` starts empty — `ItemsDel()` is empty, every rebuilt host is an
+ADDED host — and the committed global is dropped (`globalOld = nil`). -/
+def enterFull (s : Store) (r : Recr) : Mid :=
+  { hKeep := [], hAdd := r.hosts, hDel := [], bKeep := [], bAdd := r.backs, bDel := s.backs }
+
+def cycleFull (s : Store) (r : Recr) : Mid := shrink (derive (enterFull s r))
+
+/-- `dynUpdater.update()` = `hasCommittedData() && checkConfigChange()`: without committed data (after `Clear`) the
+update reloads whatever is in the changed sets; with it, a difference outside the endpoints reloads -/
+def reloadDecision (committed : Bool) (m : Mid) : Bool := !committed || outsideDiff m
+
 /-! ### premises of the world-level no-op statement -/
 
 /-- the committed flags are the derived ones -/
